@@ -14,6 +14,7 @@ import (
 	"go/ast"
 	"go/token"
 	"go/types"
+	"strings"
 )
 
 type oChan struct {
@@ -308,4 +309,68 @@ func (it *oInterp) atomicLib(f *types.Func, recv oval, args []oval) ([]oval, boo
 		}
 	}
 	return nil, false
+}
+
+
+// mutexLib: sync.Mutex and sync.RWMutex in a sequential interpretation.  Locking cannot block a
+// single thread of control, but the state still matters: releasing a mutex that is not held is a
+// fatal error of the run-time system, and acquiring one the same thread already holds never
+// returns.  The state is kept per mutex value (the struct the receiver points to).
+func (it *oInterp) mutexLib(f *types.Func, recv oval, args []oval) ([]oval, bool) {
+	if f.Pkg() == nil || f.Pkg().Path() != "sync" {
+		return nil, false
+	}
+	full := f.FullName()
+	if !strings.HasPrefix(full, "(*sync.Mutex).") && !strings.HasPrefix(full, "(*sync.RWMutex).") {
+		return nil, false
+	}
+	var p oPtr
+	switch r := recv.(type) {
+	case oPtr:
+		p = r
+	case *oStruct:
+		p = oPtr{r}
+	}
+	if p.s == nil {
+		return nil, false
+	}
+	if it.mutexState == nil {
+		it.mutexState = map[*oStruct]int{}
+	}
+	st := it.mutexState[p.s]
+	switch f.Name() {
+	case "Lock":
+		if st != 0 {
+			it.libPanic = "deadlock: " + full + " on a mutex this thread of control already holds"
+			return nil, true
+		}
+		it.mutexState[p.s] = -1
+	case "Unlock":
+		if st != -1 {
+			it.libPanic = "panic: fatal error: sync: unlock of unlocked mutex (" + full + ")"
+			return nil, true
+		}
+		it.mutexState[p.s] = 0
+	case "RLock":
+		if st == -1 {
+			it.libPanic = "deadlock: " + full + " on a mutex this thread of control holds exclusively"
+			return nil, true
+		}
+		it.mutexState[p.s] = st + 1
+	case "RUnlock":
+		if st <= 0 {
+			it.libPanic = "panic: fatal error: sync: RUnlock of unlocked RWMutex (" + full + ")"
+			return nil, true
+		}
+		it.mutexState[p.s] = st - 1
+	case "TryLock":
+		if st != 0 {
+			return []oval{oBool(false)}, true
+		}
+		it.mutexState[p.s] = -1
+		return []oval{oBool(true)}, true
+	default:
+		return nil, false
+	}
+	return nil, true
 }
